@@ -219,6 +219,17 @@ func normVal(sb *strings.Builder, v reflect.Value, cfg normCfg, dashHdoc bool) {
 						val += l2.Value
 						i++
 					}
+					if val == "" && v.Len() > 1 {
+						// an empty literal next to other parts is what an escaped newline leaves
+						// behind in a here-document body
+						first = sb.Len() > 0 && sb.String()[sb.Len()-1] == '['
+						if !first {
+							s := sb.String()
+							sb.Reset()
+							sb.WriteString(strings.TrimSuffix(s, " "))
+						}
+						continue
+					}
 					sb.WriteString("(Lit Value=" + strconv.Quote(normLitValue(val)) + ")")
 					continue
 				}
@@ -300,7 +311,12 @@ func normStruct(sb *strings.Builder, v reflect.Value, cfg normCfg, dashHdoc bool
 			sb.WriteString(strconv.Quote(normLitValue(fv.String())))
 		case name == "Redirect" && f.Name == "Hdoc":
 			op := v.FieldByName("Op").Interface().(syntax.RedirOperator)
-			if op == syntax.DashHdoc && !fv.IsNil() {
+			if !fv.IsNil() && hdocEmpty(fv.Interface().(*syntax.Word)) {
+				// an empty body is nil or an empty literal depending on the indentation of the
+				// closing delimiter of a <<- here-document (normDashHdoc does the same after
+				// stripping tabs)
+				sb.WriteString("nil")
+			} else if op == syntax.DashHdoc && !fv.IsNil() {
 				normDashHdoc(sb, fv.Interface().(*syntax.Word), cfg)
 			} else {
 				normVal(sb, fv, cfg, false)
@@ -312,23 +328,56 @@ func normStruct(sb *strings.Builder, v reflect.Value, cfg normCfg, dashHdoc bool
 	sb.WriteByte(')')
 }
 
+func hdocEmpty(w *syntax.Word) bool {
+	for _, p := range w.Parts {
+		if l, ok := p.(*syntax.Lit); !ok || l.Value != "" {
+			return false
+		}
+	}
+	return true
+}
+
 // normDashHdoc dumps the body of a <<- here-document with the leading tabs of each line removed
 // (the shell strips them; the printer re-indents them).
 func normDashHdoc(sb *strings.Builder, w *syntax.Word, cfg normCfg) {
-	sb.WriteString("(HdocBody")
+	// strip the tabs, then merge adjacent literals and drop empty ones
+	type part struct {
+		lit string
+		wp  syntax.WordPart
+	}
+	var parts []part
 	ls := true
 	for _, p := range w.Parts {
-		sb.WriteByte(' ')
 		if l, ok := p.(*syntax.Lit); ok {
 			s := stripHdocTabs(l.Value, ls)
-			if s != "" {
-				ls = strings.HasSuffix(l.Value, "\n")
+			if l.Value != "" {
+				ls = strings.HasSuffix(l.Value, "\n") || (ls && s == "")
 			}
-			sb.WriteString("(Lit Value=" + strconv.Quote(normLitValue(s)) + ")")
+			if s == "" {
+				continue
+			}
+			if n := len(parts); n > 0 && parts[n-1].wp == nil {
+				parts[n-1].lit += s
+			} else {
+				parts = append(parts, part{lit: s})
+			}
 			continue
 		}
 		ls = false
-		normVal(sb, reflect.ValueOf(p), cfg, false)
+		parts = append(parts, part{wp: p})
+	}
+	if len(parts) == 0 {
+		sb.WriteString("nil")
+		return
+	}
+	sb.WriteString("(HdocBody")
+	for _, p := range parts {
+		sb.WriteByte(' ')
+		if p.wp == nil {
+			sb.WriteString("(Lit Value=" + strconv.Quote(normLitValue(p.lit)) + ")")
+		} else {
+			normVal(sb, reflect.ValueOf(p.wp), cfg, false)
+		}
 	}
 	sb.WriteByte(')')
 }
@@ -619,6 +668,374 @@ func hasHeredoc(n syntax.Node) bool {
 			found = true
 		}
 		return !found
+	})
+	return found
+}
+
+// ---------------------------------------------------------------------------------------------
+// Recorded defects (known-findings.jsonl): exclusion predicates on (options, tree shape).
+// Each predicate is documented next to it; a case matching one is skipped and counted under
+// `excluded:<id>`; everything else is still checked, so a different failure is still reported.
+
+// stmtLists calls fn for every statement list of the tree (in Walk order).
+func stmtLists(n syntax.Node, fn func(stmts []*syntax.Stmt)) {
+	safely(func() {
+		syntax.Walk(n, func(x syntax.Node) bool {
+			switch x := x.(type) {
+			case *syntax.File:
+				fn(x.Stmts)
+			case *syntax.Block:
+				fn(x.Stmts)
+			case *syntax.Subshell:
+				fn(x.Stmts)
+			case *syntax.CmdSubst:
+				fn(x.Stmts)
+			case *syntax.ProcSubst:
+				fn(x.Stmts)
+			case *syntax.IfClause:
+				fn(x.Cond)
+				fn(x.Then)
+			case *syntax.WhileClause:
+				fn(x.Cond)
+				fn(x.Do)
+			case *syntax.ForClause:
+				fn(x.Do)
+			case *syntax.CaseItem:
+				fn(x.Stmts)
+			}
+			return true
+		})
+	})
+}
+
+// wroteSemiSim mirrors the printer's `wroteSemi` flag in print order: reset at the start of every
+// Stmt, set by a trailing & / |& / &|, by `{` of a Block and by a case item's `;;` operator.
+// It returns the flag's value after printing n, given its value before.
+func wroteSemiSim(n syntax.Node, ws bool, leak *[2]bool) bool {
+	// leak[0]: between two statements of a list (matters under SingleLine);
+	// leak[1]: before a closing keyword, after a statement that ends in a word (every mode).
+	listK := func(stmts []*syntax.Stmt, keyword bool) {
+		for i, s := range stmts {
+			if i > 0 && ws && !(stmts[i-1].Background || stmts[i-1].Coprocess || stmts[i-1].Disown) {
+				leak[0] = true
+			}
+			ws = wroteSemiSim(s, ws, leak)
+		}
+		if n := len(stmts); keyword && n > 0 && ws && !(stmts[n-1].Background || stmts[n-1].Coprocess || stmts[n-1].Disown) && stmtEndsInWord(stmts[n-1]) {
+			leak[1] = true
+		}
+	}
+	list := func(stmts []*syntax.Stmt) { listK(stmts, true) }
+	listP := func(stmts []*syntax.Stmt) { listK(stmts, false) }
+	switch x := n.(type) {
+	case nil:
+	case *syntax.File:
+		listP(x.Stmts)
+	case *syntax.Stmt:
+		ws = false
+		if x.Cmd != nil {
+			ws = wroteSemiSim(x.Cmd, ws, leak)
+		}
+		for _, r := range x.Redirs {
+			if r.Word != nil {
+				ws = wroteSemiSim(r.Word, ws, leak)
+			}
+		}
+		if x.Background || x.Coprocess || x.Disown {
+			ws = true
+		}
+	case *syntax.Block:
+		ws = true
+		list(x.Stmts)
+	case *syntax.Subshell:
+		listP(x.Stmts)
+	case *syntax.CmdSubst:
+		if x.TempFile || x.ReplyVar {
+			list(x.Stmts)
+		} else {
+			listP(x.Stmts)
+		}
+	case *syntax.ProcSubst:
+		listP(x.Stmts)
+	case *syntax.IfClause:
+		for c := x; c != nil; c = c.Else {
+			list(c.Cond)
+			list(c.Then)
+		}
+	case *syntax.WhileClause:
+		list(x.Cond)
+		list(x.Do)
+	case *syntax.ForClause:
+		if wi, ok := x.Loop.(*syntax.WordIter); ok {
+			for _, w := range wi.Items {
+				ws = wroteSemiSim(w, ws, leak)
+			}
+			if ws {
+				leak[1] = true // `for i in $(a &) do`
+			}
+		}
+		list(x.Do)
+	case *syntax.CaseClause:
+		ws = wroteSemiSim(x.Word, ws, leak)
+		for _, ci := range x.Items {
+			for _, w := range ci.Patterns {
+				ws = wroteSemiSim(w, ws, leak)
+			}
+			list(ci.Stmts)
+			ws = true
+		}
+	case *syntax.BinaryCmd:
+		ws = wroteSemiSim(x.X, ws, leak)
+		ws = wroteSemiSim(x.Y, ws, leak)
+	case *syntax.FuncDecl:
+		ws = wroteSemiSim(x.Body, ws, leak)
+	case *syntax.TimeClause:
+		if x.Stmt != nil {
+			ws = wroteSemiSim(x.Stmt, ws, leak)
+		}
+	case *syntax.CoprocClause:
+		ws = wroteSemiSim(x.Stmt, ws, leak)
+	case *syntax.TestDecl:
+		ws = wroteSemiSim(x.Body, ws, leak)
+	case *syntax.CallExpr:
+		for _, a := range x.Assigns {
+			if a.Value != nil {
+				ws = wroteSemiSim(a.Value, ws, leak)
+			}
+			if a.Array != nil {
+				for _, e := range a.Array.Elems {
+					if e.Value != nil {
+						ws = wroteSemiSim(e.Value, ws, leak)
+					}
+				}
+			}
+		}
+		for _, w := range x.Args {
+			ws = wroteSemiSim(w, ws, leak)
+		}
+	case *syntax.DeclClause:
+		for _, a := range x.Args {
+			if a.Value != nil {
+				ws = wroteSemiSim(a.Value, ws, leak)
+			}
+		}
+	case *syntax.Word:
+		for _, p := range x.Parts {
+			ws = wroteSemiSim(p, ws, leak)
+		}
+	case *syntax.DblQuoted:
+		for _, p := range x.Parts {
+			ws = wroteSemiSim(p, ws, leak)
+		}
+	case *syntax.ParamExp:
+		if x.Exp != nil && x.Exp.Word != nil {
+			ws = wroteSemiSim(x.Exp.Word, ws, leak)
+		}
+		if x.Repl != nil {
+			if x.Repl.Orig != nil {
+				ws = wroteSemiSim(x.Repl.Orig, ws, leak)
+			}
+			if x.Repl.With != nil {
+				ws = wroteSemiSim(x.Repl.With, ws, leak)
+			}
+		}
+	}
+	return ws
+}
+
+func wroteSemiLeaks(n syntax.Node) (betweenStmts, beforeKeyword bool) {
+	var leak [2]bool
+	safely(func() { wroteSemiSim(n, false, &leak) })
+	return leak[0], leak[1]
+}
+
+// stmtEndsInWord: the last token printed for s is a word (not a closing reserved word or `)`).
+func stmtEndsInWord(s *syntax.Stmt) bool {
+	if len(s.Redirs) > 0 {
+		return true
+	}
+	switch c := s.Cmd.(type) {
+	case *syntax.CallExpr, *syntax.DeclClause, *syntax.LetClause:
+		return true
+	case *syntax.BinaryCmd:
+		return stmtEndsInWord(c.Y)
+	case *syntax.FuncDecl:
+		return stmtEndsInWord(c.Body)
+	case *syntax.TimeClause:
+		return c.Stmt == nil || stmtEndsInWord(c.Stmt)
+	case *syntax.CoprocClause:
+		return stmtEndsInWord(c.Stmt)
+	case *syntax.TestDecl:
+		return stmtEndsInWord(c.Body)
+	}
+	return false
+}
+
+func hdocDelimQuoted(w *syntax.Word) bool {
+	for _, p := range w.Parts {
+		l, ok := p.(*syntax.Lit)
+		if !ok || strings.Contains(l.Value, "\\") {
+			return true
+		}
+	}
+	return false
+}
+
+func looksLikeAssign(w *syntax.Word) bool {
+	if len(w.Parts) == 0 {
+		return false
+	}
+	l, ok := w.Parts[0].(*syntax.Lit)
+	if !ok {
+		return false
+	}
+	i := 0
+	for i < len(l.Value) && (l.Value[i] == '_' || l.Value[i] >= 'a' && l.Value[i] <= 'z' || l.Value[i] >= 'A' && l.Value[i] <= 'Z' || i > 0 && l.Value[i] >= '0' && l.Value[i] <= '9') {
+		i++
+	}
+	if i == 0 || i >= len(l.Value) {
+		return false
+	}
+	rest := l.Value[i:]
+	return rest[0] == '=' || strings.HasPrefix(rest, "+=") || rest[0] == '['
+}
+
+// commentEndsInBackslash: some comment of the *source* ends in a backslash (the lexer then treats
+// the newline as escaped and continues the previous command on the next line).
+func commentEndsInBackslash(tc l4Case) bool {
+	if !strings.Contains(tc.Src, "\\\n") && !strings.Contains(tc.Src, "#") {
+		return false
+	}
+	f, err, p := parseIn(tc.Src, tc.Lang, syntax.KeepComments(true))
+	if err != nil || p != "" || f == nil {
+		return false
+	}
+	found := false
+	safely(func() {
+		syntax.Walk(f, func(n syntax.Node) bool {
+			if c, ok := n.(*syntax.Comment); ok && strings.HasSuffix(c.Text, "\\\n") {
+				found = true
+			}
+			return !found
+		})
+	})
+	return found
+}
+
+// arithFirst returns the first byte the printer writes for an arithmetic expression (0 = unknown).
+func arithFirst(x syntax.ArithmExpr) byte {
+	switch x := x.(type) {
+	case *syntax.Word:
+		if len(x.Parts) > 0 {
+			if l, ok := x.Parts[0].(*syntax.Lit); ok && l.Value != "" {
+				return l.Value[0]
+			}
+		}
+	case *syntax.BinaryArithm:
+		return arithFirst(x.X)
+	case *syntax.UnaryArithm:
+		if x.Post {
+			return arithFirst(x.X)
+		}
+		return x.Op.String()[0]
+	case *syntax.ParenArithm:
+		return '('
+	}
+	return 0
+}
+
+// arithGlue reports whether printing x glues two sign characters into another operator:
+// a prefix + - ++ -- applied to an operand that starts with the same sign (every mode: the
+// printer never separates a unary operator from its operand), or — when compact, i.e. under
+// Minify, in ${a:off:len} and in comma subscripts — a binary operator ending in + or - followed
+// by an operand starting with the same sign.
+func arithGlue(x syntax.ArithmExpr, compact bool) bool {
+	switch x := x.(type) {
+	case *syntax.BinaryArithm:
+		if compact {
+			op := x.Op.String()
+			if c := op[len(op)-1]; (c == '+' || c == '-') && arithFirst(x.Y) == c {
+				return true
+			}
+		}
+		return arithGlue(x.X, compact) || arithGlue(x.Y, compact)
+	case *syntax.UnaryArithm:
+		if !x.Post {
+			if c := x.Op.String()[0]; (c == '+' || c == '-') && arithFirst(x.X) == c {
+				return true
+			}
+		}
+		return arithGlue(x.X, compact)
+	case *syntax.ParenArithm:
+		return arithGlue(x.X, false) // the printer resets compact inside parentheses
+	case *syntax.FlagsArithm:
+		if x.X != nil {
+			return arithGlue(x.X, compact)
+		}
+	}
+	return false
+}
+
+// anyArithGlue walks every arithmetic expression root of the tree.
+func anyArithGlue(sh *shape, minify bool) bool {
+	return sh.any(func(n syntax.Node) bool {
+		switch x := n.(type) {
+		case *syntax.ArithmExp:
+			return x.X != nil && arithGlue(x.X, minify)
+		case *syntax.ArithmCmd:
+			return x.X != nil && arithGlue(x.X, minify)
+		case *syntax.LetClause:
+			for _, e := range x.Exprs {
+				if arithGlue(e, true) {
+					return true
+				}
+			}
+		case *syntax.CStyleLoop:
+			for _, e := range []syntax.ArithmExpr{x.Init, x.Cond, x.Post} {
+				if e != nil && arithGlue(e, minify) {
+					return true
+				}
+			}
+		case *syntax.ParamExp:
+			if x.Index != nil {
+				b, ok := x.Index.(*syntax.BinaryArithm)
+				if arithGlue(x.Index, minify || (ok && b.Op == syntax.Comma)) {
+					return true
+				}
+			}
+			if x.Slice != nil {
+				if x.Slice.Offset != nil && arithGlue(x.Slice.Offset, true) {
+					return true
+				}
+				if x.Slice.Length != nil && arithGlue(x.Slice.Length, true) {
+					return true
+				}
+			}
+		case *syntax.Assign:
+			if x.Index != nil && arithGlue(x.Index, minify) {
+				return true
+			}
+		case *syntax.ArrayElem:
+			if x.Index != nil && arithGlue(x.Index, minify) {
+				return true
+			}
+		}
+		return false
+	})
+}
+
+func containsType(n syntax.Node, t string) bool {
+	found := false
+	if n == nil || reflect.ValueOf(n).IsNil() {
+		return false
+	}
+	safely(func() {
+		syntax.Walk(n, func(x syntax.Node) bool {
+			if x != nil && typeName(x) == t {
+				found = true
+			}
+			return !found
+		})
 	})
 	return found
 }
